@@ -389,8 +389,9 @@ func min(a, b int) int {
 
 func main() {
 	cfg := hx.ParseFlags()
-	rep := hx.NewReport("directory trees over {generated file, manifest file, user .go, look-alike file, empty dir, dir named like the manifest (empty / non-empty), nested dir}: " +
-		"exhaustive for depth<=2 width<=2 (all 8 kinds) and depth<=3 width<=2 over {generated,user,empty dir}, depth 1 width 3, plus seeded random trees of depth<=3 width<=3; each as a named target and as \".\", plus a missing target; both module generations. " +
+	rep := hx.NewReport("directory trees over {generated file, manifest file, user .go, look-alike files (x.gr.go.bak, fixtures.gr.json, ...), empty dir, dir named like the manifest (empty / non-empty), " +
+		"symbolic link to an outside directory holding generated files, nested dir}: quick = exhaustive depth 1 width <= 3 over all kinds (as a named target and as \".\"), exhaustive depth 2 width <= 2 over 6 kinds, " +
+		"depth 3 width <= 2 over generated files only, 400 seeded random trees of depth <= 3 width <= 3 per module, and a missing target; thorough = depth 2 over all kinds, depth 3 over {generated,user,empty dir}, 20000 random trees; both module generations. " +
 		"non-trivial = the tree holds at least one foreign file AND at least one owned file; distinct by (module, target kind, tree)")
 	scratch, err := os.MkdirTemp("", "verif-c20-")
 	must(err)
@@ -432,14 +433,18 @@ func main() {
 			runCase(m, scratch, true, true, cs, rep, sh)
 		}
 		enumerate(m, allKinds, 1, 3, dotToo)
-		enumerate(m, allKinds, 2, 2, both)
+		if cfg.Thorough() {
+			enumerate(m, allKinds, 2, 2, both)
+		} else {
+			enumerate(m, []int{kGen, kManifest, kUser, kOther, kEmptyDir, kSymlinkDir}, 2, 2, both)
+		}
 		if cfg.Thorough() {
 			enumerate(m, fewKinds, 3, 2, both)
 			enumerate(m, []int{kGen, kManifest, kUser}, 2, 3, dotToo)
 		} else {
-			enumerate(m, []int{kGen, kUser}, 3, 2, both)
+			enumerate(m, []int{kGen}, 3, 2, both)
 		}
-		nr := 600
+		nr := 400
 		if cfg.Thorough() {
 			nr = 20000
 		}
